@@ -77,6 +77,8 @@ Record oracles := mkO {
                                                        (gonum's binomial CDF when threshold > total) *)
   o_prio   : N -> Z -> N;                           (* computePriority hash j *)
   o_quorum : N -> bool -> N;                        (* uint32(float64(T) * (isPos ? 0.685 : 0.585)) *)
+  o_vrf_crash : N -> bool;                          (* proof -> ProofToHash panics on it (a scalar that is 0 or >= the
+                                                       group order: nil dereference in the curve code) *)
   o_recover : N -> N -> option key;                 (* crypto.SigToPub(header hash, header.Signature): None = error *)
   o_bls    : list blskey -> payload -> N -> option bool   (* VerifyAggregatedOne pubs payload sig = nil;
                                                        None = the pairing code panics (signature or summed
@@ -141,6 +143,7 @@ Fixpoint find_by_main (l : list validator) (k : key) : option validator :=
 (* VrfVerifySortition: Some true = (true, nil); Some false = an error; None = panic *)
 Definition verify_sortition (O : oracles) (pk : key) (seed index role proof subUsers threshold stake total : N) : option bool :=
   if total =? 0 then Some false else
+  if o_vrf_crash O proof then None else
   match o_vrf O pk seed role index proof with
   | None => Some false
   | Some h =>
@@ -156,6 +159,7 @@ Definition verify_sortition (O : oracles) (pk : key) (seed index role proof subU
 (* VrfVerifyPriority: Some (isValid && err == nil); None = panic *)
 Definition verify_priority (O : oracles) (pk : key) (seed index proof prio subUsers threshold stake total : N) : option bool :=
   if total =? 0 then Some false else
+  if o_vrf_crash O proof then None else
   match o_vrf O pk seed step_proposal index proof with
   | None => Some false
   | Some h =>
@@ -399,7 +403,8 @@ Record tables := mkT {
   t_prio   : list ((N * Z) * N);                  (* (hash, j) -> priority *)
   t_quorum : list ((N * bool) * N);
   t_sigs   : list (N * list (blskey * payload));  (* sig id -> the signatures it aggregates *)
-  t_recover : list ((N * N) * key)                (* (header hash, header signature) -> recovered key; absent = error *)
+  t_recover : list ((N * N) * key);               (* (header hash, header signature) -> recovered key; absent = error *)
+  t_crash  : list N                               (* proofs on which ProofToHash panics *)
 }.
 
 Definition eq5 (a b : N * N * N * N * N) : bool :=
@@ -440,6 +445,7 @@ Definition table_oracles (t : tables) : oracles :=
       (fun h stake thr total => match assoc eq4 (t_seats t) (h, stake, thr, total) with Some j => j | None => missing_seats end)
       (fun h j => match assoc (fun a b => (fst a =? fst b) && (snd a =? snd b)%Z) (t_prio t) (h, j) with Some p => p | None => missing_n end)
       (fun thr pos => match assoc (fun a b => (fst a =? fst b) && Bool.eqb (snd a) (snd b)) (t_quorum t) (thr, pos) with Some q => q | None => missing_n end)
+      (fun proof => mem proof (t_crash t))
       (fun hh sg => assoc (fun a b => (fst a =? fst b) && (snd a =? snd b)) (t_recover t) (hh, sg))
       (fun pubs pl sig => match assoc N.eqb (t_sigs t) sig with
                           | Some comp =>
